@@ -18,6 +18,7 @@ NoUpd == [set |-> <<>>, remove |-> <<>>, add |-> <<>>, del |-> <<>>]
 
 Put(it) == [op |-> "PutItem", c |-> "c1", t |-> T1, item |-> it, cond |-> NoCond, names |-> <<>>, values |-> <<>>, rvf |-> FALSE]
 Get(k)  == [op |-> "GetItem", c |-> "c1", t |-> T1, key |-> k]
+GetP(k, proj) == [op |-> "GetItem", c |-> "c1", t |-> T1, key |-> k, proj |-> proj]
 Del(k, old) == [op |-> "DeleteItem", c |-> "c1", t |-> T1, key |-> k, cond |-> NoCond, names |-> <<>>, values |-> <<>>,
                 retold |-> old, rvf |-> FALSE]
 Upd(k, u, vals) == [op |-> "UpdateItem", c |-> "c1", t |-> T1, key |-> k, upd |-> u, cond |-> NoCond,
@@ -35,7 +36,7 @@ Updates == {
 }
 
 SetupDef == << [op |-> "AddTable", c |-> "c1", t |-> T1, hash |-> "h", range |-> ""] >>
-MenuDef == SetToSeq( { Put(it) : it \in Items } \cup { Get(k) : k \in Keys }
+MenuDef == SetToSeq( { Put(it) : it \in Items } \cup { Get(k) : k \in Keys } \cup { GetP(k, pr) : k \in Keys, pr \in { <<"v">>, <<"w", "zz">> } }
                      \cup { Del(k, b) : k \in Keys, b \in BOOLEAN }
                      \cup { Upd(k, u[1], u[2]) : k \in Keys, u \in Updates } )
 
